@@ -529,9 +529,14 @@ static void *vs_trampoline(void *p) {
     vs_thread_exit_current();
     return NULL;
 }
+static int vs_refuse_creates; /* environment answer set by a scenario: the next n pthread_create calls fail with EAGAIN */
 int __wrap_pthread_create(pthread_t *thr, const pthread_attr_t *attr, void *(*fn)(void *), void *arg) {
     if (VS_PASS) return __real_pthread_create(thr, attr, fn, arg);
     vs_yield(VOP_CREATE, vs_nthreads);
+    if (vs_refuse_creates > 0) {
+        --vs_refuse_creates;
+        return EAGAIN;
+    }
     if (vs_nthreads >= VS_MAX_THREADS) vs_harness_error("too many threads");
     int id = vs_nthreads;
     struct vs_thread *th = &vs_th[id];
